@@ -3,6 +3,7 @@ From Coq Require Import List String.
 From SCC Require Import Base.Sexp Model.RunBase Model.RunPM Model.RunX86.
 From SCC Require Import Base.Sexp Model.RunBase Model.RunPM Model.RunStages.
 From SCC Require Import Base.Sexp Model.RunBase Model.RunShrink.
+From SCC Require Import Model.RunFun2Core.
 Open Scope string_scope.
 
 Definition dispatch (cmd : string) (input : string) : string :=
@@ -12,5 +13,6 @@ Definition dispatch (cmd : string) (input : string) : string :=
   | "stages" => run_stages input
   | "shrink" => run_shrink input
   | "shrink-why" => run_shrink_why input
+  | "fun2core" => run_fun2core input
   | _ => "BAD - unknown command " ++ cmd ++ nl
   end.
